@@ -407,7 +407,9 @@ HarDiffs(h, x, preserve) ==
 ---------------------------------------------------------------------------
 (* the bounded string family: every string over Alphabet up to MaxLen, built by appending (state count = family size) *)
 CONSTANTS MaxLen
-Alphabet == {97, SQ, DQ, BSL, COLON, HASH, 10, 0, 1, 8232, 233, 55296, SP, DASH, 123, 91, 128512}
+(* 133 = NEL (a C1 control that YAML treats as a line break) and 156 = a C1 control outside c-printable: both are legal latin-1
+   octets of a header value on the wire, and neither may appear raw in a one-line scalar *)
+Alphabet == {97, SQ, DQ, BSL, COLON, HASH, 10, 0, 1, 8232, 233, 55296, SP, DASH, 123, 91, 128512, 133, 156}
 VARIABLE str
 YInit == str = <<>>
 YNext == Len(str) < MaxLen /\ \E c \in Alphabet : str' = Append(str, c)
